@@ -27,6 +27,12 @@ pub struct Viol {
     pub after_leak: bool,
 }
 
+thread_local! {
+    /// > 0 while code runs under `catch_unwind` on behalf of the system under test; a panic
+    /// outside is a harness bug and is printed by the panic hook.
+    pub static IN_GUARDED: std::cell::Cell<u32> = const { std::cell::Cell::new(0) };
+}
+
 pub enum Caught {
     Fault(SimFault),
     Panic(String),
@@ -36,7 +42,9 @@ pub enum Caught {
 /// the armed trigger fired.
 pub fn guarded<R>(armed: Option<(usize, u32)>, f: impl FnOnce() -> R) -> (Result<R, Caught>, [u32; N_KINDS], bool) {
     plan_begin(armed);
+    let depth = IN_GUARDED.with(|g| { let d = g.get(); g.set(d + 1); d });
     let res = catch_unwind(AssertUnwindSafe(f));
+    IN_GUARDED.with(|g| g.set(depth));
     let (counts, fired) = plan_end();
     let res = res.map_err(|p| {
         if let Some(f) = p.downcast_ref::<SimFault>() {
@@ -473,7 +481,10 @@ impl<E: Elem> Engine<E> {
     }
 
     fn audit_guarded(&self, mode: &Mode<'_>) -> Result<(), (&'static str, String)> {
-        match catch_unwind(AssertUnwindSafe(|| self.audit(mode))) {
+        let depth = IN_GUARDED.with(|g| { let d = g.get(); g.set(d + 1); d });
+        let res = catch_unwind(AssertUnwindSafe(|| self.audit(mode)));
+        IN_GUARDED.with(|g| g.set(depth));
+        match res {
             Ok(r) => r,
             Err(p) => {
                 let msg = p.downcast_ref::<String>().cloned().or_else(|| p.downcast_ref::<&'static str>().map(|s| s.to_string())).unwrap_or_default();
@@ -1140,7 +1151,7 @@ impl<E: Elem> Engine<E> {
                 if f + b == 0 {
                     self.stats.probe(if is_col { "drain_col_untouched" } else { "drain_row_untouched" });
                 }
-                if is_col && pc >= 3 && *idx > 0 && *idx + 1 < pc && pr >= 2 {
+                if is_col && pc >= 3 && *idx > 0 && idx.saturating_add(1) < pc && pr >= 2 {
                     self.stats.probe("remove_col_middle_multirow");
                 }
                 if (is_col && pc == 1) || (!is_col && pr == 1) {
